@@ -133,13 +133,6 @@ let rec filter f = function
 | [] -> []
 | x :: l0 -> if f x then x :: (filter f l0) else filter f l0
 
-(** val list_prod : 'a1 list -> 'a2 list -> ('a1 * 'a2) list **)
-
-let rec list_prod l l' =
-  match l with
-  | [] -> []
-  | x :: t -> app (map (fun y -> (x, y)) l') (list_prod t l')
-
 (** val nodup : ('a1 -> 'a1 -> bool) -> 'a1 list -> 'a1 list **)
 
 let rec nodup decA = function
@@ -258,6 +251,26 @@ let rec saturate eq_dec0 step fuel s =
     let s' = add_new eq_dec0 s (step s) in
     if Nat.eqb (length s') (length s) then s else saturate eq_dec0 step f s'
 
+(** val saturate2b :
+    ('a1 -> 'a1 -> bool) -> ('a1 list -> 'a1 list) -> nat -> 'a1 list -> 'a1
+    list * bool **)
+
+let rec saturate2b eq_dec0 step k s =
+  match k with
+  | O ->
+    let s' = add_new eq_dec0 s (step s) in
+    if Nat.eqb (length s') (length s) then (s, true) else (s', false)
+  | S k' ->
+    let (s1, b1) = saturate2b eq_dec0 step k' s in
+    if b1 then (s1, true) else saturate2b eq_dec0 step k' s1
+
+(** val saturate2 :
+    ('a1 -> 'a1 -> bool) -> ('a1 list -> 'a1 list) -> nat -> 'a1 list -> 'a1
+    list **)
+
+let saturate2 eq_dec0 step k s =
+  fst (saturate2b eq_dec0 step k s)
+
 (** val states : ta -> n list **)
 
 let states a =
@@ -322,21 +335,10 @@ let mstep a b r =
   flat_map (fun r0 ->
     map (fun ss -> (r0.par, (postB b r0.sym ss))) (choices r r0.ch)) a.rules
 
-(** val sublists : n list -> n list list **)
-
-let rec sublists = function
-| [] -> [] :: []
-| x :: r -> app (map (fun x0 -> x :: x0) (sublists r)) (sublists r)
-
-(** val universe : ta -> ta -> mp list **)
-
-let universe a b =
-  list_prod (states a) (sublists (qB b))
-
 (** val macro_reach : ta -> ta -> mp list **)
 
 let macro_reach a b =
-  saturate mp_eq_dec (mstep a b) (S (length (universe a b))) []
+  saturate2 mp_eq_dec (mstep a b) (add (length (states a)) (length (qB b))) []
 
 (** val incl_dec : ta -> ta -> bool **)
 
